@@ -16,7 +16,7 @@ from vlib.core import Stage, Violation, fail
 ID = "C20"
 MANIFEST = {
     "category": "exploration",
-    "text": "Complete enumeration of stated sub-domains plus generated-input search. Exhaustive slices: all 368 184 whole hours 1996-01-01..2037-12-31 (quick and thorough), all ~22 M whole minutes and all seconds within +-2 h of each of the 84 DST switches (thorough), each written in one notation chosen as a pure function of (instant, VERIF_SEED) and judged by all five shipped evaluators. Generated: instants that are local midnight / 06:00, near-misses by +-1 s / +-1 h, DST-switch neighbourhoods, x offsets in [-23:59, +23:59] (incl. seconds offsets) x notations (T/space, fractions, Z, +HH:MM(:SS), +HHMM, +HH, basic and week dates), directly and through format_constraint_evaluation('[93x]'); arbitrary / almost-datetime strings and range-edge datetimes must never raise and must be unfulfilled with a message. Oracle: EU summer-time rule in integer arithmetic; 931 fulfilled iff the written offset is zero.",
+    "text": "Complete enumeration of stated sub-domains plus generated-input search. Exhaustive slices: all 368 184 whole hours 1996-01-01..2037-12-31 (quick and thorough), all ~22 M whole minutes and all seconds within +-2 h of each of the 84 DST switches (thorough), each written in one notation chosen as a pure function of (instant, VERIF_SEED) and judged by all five shipped evaluators. Generated: instants that are local midnight / 06:00, near-misses by +-1 s / +-1 h, DST-switch neighbourhoods, x offsets in [-23:59, +23:59] (incl. seconds offsets) x notations (T/space, fractions, Z, +HH:MM(:SS), +HHMM, +HH, basic and week dates), directly and through format_constraint_evaluation('[93x]'); arbitrary / almost-datetime / very long strings and range-edge datetimes must never raise - neither when the evaluators are called directly nor through format_constraint_evaluation('[93x]') - and must be unfulfilled with a message. Oracle: EU summer-time rule in integer arithmetic; 931 fulfilled iff the written offset is zero.",
     "note": "Trusted: the integer EU-DST rule and the formatter in vlib/ref.py (cross-checked against the shipped evaluators on every whole hour), CPython's datetime.fromisoformat as the definition of which notations are parseable at all. The top-level exhaustive flag stays false: only the listed slices are complete.",
     "technique": "exhaustive enumeration of time slices plus property-based testing against an independent integer-arithmetic model of German local time",
 }
@@ -244,6 +244,24 @@ def check_string(case):
             fail("other-fulfilled", f"evaluate_{key}({text!r}) is fulfilled although the string is no datetime with offset")
         if not fulfilled and not (isinstance(message, str) and message):
             fail("message", f"evaluate_{key}({text!r}) is unfulfilled without an error message")
+        # the same through an expression (the way the validation reaches the constraints)
+        from ahbicht.content_evaluation.fc_evaluators import text_to_be_evaluated_by_format_constraint
+        from ahbicht.expressions.format_constraint_expression_evaluation import format_constraint_evaluation
+
+        sut.configure([instance] + _other_providers())
+
+        async def through_expression(key=key):
+            text_to_be_evaluated_by_format_constraint.set(text)
+            return await format_constraint_evaluation(f"[{key}]")
+
+        via = sut.call(through_expression)
+        if not via.ok:
+            fail("raises", f"format_constraint_evaluation('[{key}]') with input {text[:80]!r}... ({len(text)} characters) raised {via!r}")
+        if via.value.format_constraints_fulfilled is not fulfilled:
+            fail("route-differs", f"format_constraint_evaluation('[{key}]') = {via.value.format_constraints_fulfilled!r} "
+                 f"but evaluate_{key} = {fulfilled!r} for {text[:80]!r}")  # fmt: skip
+        if not fulfilled and not (isinstance(via.value.error_message, str) and via.value.error_message):
+            fail("message", f"format_constraint_evaluation('[{key}]') with input {text[:80]!r} is unfulfilled without an error message")
     return {"other": definitely_other}
 
 
@@ -252,6 +270,8 @@ def classify_string(case, info):
     text = case["s"]
     if text[:4] in ("0001", "9999"):
         labels.append("range-edge")
+    if len(text) > 100:
+        labels.append("long-input")
     return labels, len(text) >= 10 or text[:4] in ("0001", "9999")
 
 
@@ -344,6 +364,12 @@ def strategy_strings(tier):  # pylint:disable=unused-argument
                 if not chars:
                     break
             return {"s": "".join(chars)}
+        if pick == 8:
+            # long inputs: a datetime with very many fractional zeros, or a long unparsable tail
+            base = ref.format_instant(draw(_instant()), draw(_offset()), {"sep": "T", "frac": "", "off": "colon", "date": "ext"})
+            if draw(st.booleans()):
+                return {"s": base[:19] + "." + "0" * draw(st.integers(100, 400)) + base[19:]}
+            return {"s": base + "x" * draw(st.integers(100, 400))}
         return {"s": draw(st.text(max_size=30))}
 
     return build()
@@ -360,5 +386,5 @@ STAGES = [
           floors={"fulfilled-932": 0.08, "fulfilled-934": 0.08, "near-dst-switch": 0.2, "offset-zero": 0.05},
           sample=lambda c: {"instant": c["ts"], "offset_s": c["offset_s"], "written": ref.format_instant(c["ts"], c["offset_s"], c["style"])}),
     Stage(name="strings", kind="hyp", check=check_string, classify=classify_string, strategy=strategy_strings,
-          budget={"quick": 400, "thorough": 10000}, floors={"definitely-other": 0.4, "range-edge": 0.1}),
+          budget={"quick": 400, "thorough": 10000}, floors={"definitely-other": 0.4, "range-edge": 0.1, "long-input": 0.03}),
 ]  # fmt: skip
